@@ -12,18 +12,7 @@ NOT_DECIDED = []
 INC = ["@suites/common"]
 
 
-def imported(pid, name, newname):
-    sp = importlib.util.spec_from_file_location("s_" + pid, os.path.join(os.path.dirname(os.path.abspath(__file__)), "..", pid, "suite.py"))
-    m = importlib.util.module_from_spec(sp); sp.loader.exec_module(m)
-    o = dict([x for x in m.OBLIGATIONS if x["name"] == name][0])
-    o["name"] = newname
-    o["tier"] = "quick"
-    o["files"] = [f if not isinstance(f, str) or f.startswith("@") else "@suites/%s/%s" % (pid, f) for f in o["files"]]
-    o["includes"] = [f if f.startswith("@") else "@suites/%s/%s" % (pid, f) for f in o.get("includes", [])]
-    o["incdirs"] = list(o.get("incdirs", [])) + ["@suites/" + pid]
-    if o.get("replay"):
-        r = dict(o["replay"]); r["prog"] = r["prog"] if r["prog"].startswith("@") else "@suites/%s/%s" % (pid, r["prog"]); o["replay"] = r
-    return o
+from imports import imported
 
 
 LAYOUT_FILES = [XS.JIT_SIZES, {"cxx": XS.JIT_LAYOUT, "out": "jg.c", "header": True,
